@@ -11,19 +11,20 @@
    machine - WriteWhole / ListHdr / ListEl / status - and a ResourceExhausted status can only open a message.
    Layer P (property text): every selected value exactly once and in order, lists split at element boundaries only and
    reassembling to the original, every message well-formed and within the transport's maximum, only the last message
-   ends the interaction, and the answer ends (Bounded).  A value larger than SafeFit bytes may be answered by a
+   ends the interaction, and the answer ends (Bounded).  A value larger than the transmit buffer less Overhead bytes may be answered by a
    ResourceExhausted status instead (it can not be carried by any message); no value may be cut or dropped silently. *)
 EXTENDS Integers, Sequences, FiniteSets, TLC, Json, IOUtils
-CONSTANTS SafeFit, MaxDatagram
+CONSTANTS Overhead      \* bytes of a message that are not available to one value (headers, report framing, reserve)
 Rec == ndJsonDeserialize(IOEnv.TRACE)
-VARIABLES i, items, cur, li, lastChunk, nEl,
+VARIABLES safeFit, maxDatagram,         \* from Req: transmit buffer of the build less Overhead; largest datagram of the transport
+          i, items, cur, li, lastChunk, nEl,
           evs, nEv, evSt, nSt, lastNo      \* expected events, events seen, expected / seen event statuses, last event number
-vars == <<i, items, cur, li, lastChunk, nEl, evs, nEv, evSt, nSt, lastNo>>
-Init == i = 1 /\ items = <<>> /\ cur = 1 /\ li = 0 /\ lastChunk = 0 /\ nEl = 0 /\ evs = <<>> /\ nEv = 0 /\ evSt = 0 /\ nSt = 0 /\ lastNo = -1
+vars == <<safeFit, maxDatagram, i, items, cur, li, lastChunk, nEl, evs, nEv, evSt, nSt, lastNo>>
+Init == safeFit = 0 /\ maxDatagram = 0 /\ i = 1 /\ items = <<>> /\ cur = 1 /\ li = 0 /\ lastChunk = 0 /\ nEl = 0 /\ evs = <<>> /\ nEv = 0 /\ evSt = 0 /\ nSt = 0 /\ lastNo = -1
 IsEvent(x) == i <= Len(Rec) /\ Rec[i].ev = x /\ i' = i + 1
 R == Rec[i]
-Reset == IsEvent("Reset") /\ items' = <<>> /\ cur' = 1 /\ li' = 0 /\ lastChunk' = 0 /\ nEl' = 0 /\ evs' = <<>> /\ nEv' = 0 /\ evSt' = 0 /\ nSt' = 0 /\ lastNo' = -1
-Req == IsEvent("Req") /\ items' = R.items /\ cur' = 1 /\ li' = 0 /\ lastChunk' = 0 /\ nEl' = 0
+Reset == IsEvent("Reset") /\ UNCHANGED <<safeFit, maxDatagram>> /\ items' = <<>> /\ cur' = 1 /\ li' = 0 /\ lastChunk' = 0 /\ nEl' = 0 /\ evs' = <<>> /\ nEv' = 0 /\ evSt' = 0 /\ nSt' = 0 /\ lastNo' = -1
+Req == IsEvent("Req") /\ safeFit' = R.cap - Overhead /\ maxDatagram' = R.max_dgram /\ items' = R.items /\ cur' = 1 /\ li' = 0 /\ lastChunk' = 0 /\ nEl' = 0
        /\ evs' = (IF "events" \in DOMAIN R THEN R.events ELSE <<>>) /\ evSt' = (IF "evstatus" \in DOMAIN R THEN R.evstatus ELSE 0)
        /\ nEv' = 0 /\ nSt' = 0 /\ lastNo' = -1
 It == items[cur]
@@ -34,8 +35,8 @@ ElOk ==
   /\ IF R.k = "status"
      THEN \* only for a value no message can carry, and only as the first element of a message (the writer tried an empty one)
           /\ R.status = "ResourceExhausted" /\ R.chunk > lastChunk
-          /\ IF li = 0 THEN It.k = "s" /\ It.size > SafeFit
-                       ELSE li <= Len(It.els) /\ It.els[li] > SafeFit
+          /\ IF li = 0 THEN It.k = "s" /\ It.size > safeFit
+                       ELSE li <= Len(It.els) /\ It.els[li] > safeFit
           /\ Advance
      ELSE IF li = 0
           THEN IF It.k = "s" THEN R.li = "whole" /\ R.len = It.size /\ Advance
@@ -44,19 +45,19 @@ ElOk ==
                        \/ R.els = <<>> /\ Len(It.els) > 0 /\ li' = 1 /\ cur' = cur    \* the empty list first, the elements follow
           ELSE /\ R.li = "append" /\ li <= Len(It.els) /\ R.len = It.els[li]
                /\ IF li = Len(It.els) THEN Advance ELSE li' = li + 1 /\ cur' = cur
-AttrEl == IsEvent("El") /\ R.k \in {"data", "status"} /\ ElOk /\ lastChunk' = R.chunk /\ nEl' = nEl + 1 /\ UNCHANGED <<items, evs, nEv, evSt, nSt, lastNo>>
+AttrEl == IsEvent("El") /\ R.k \in {"data", "status"} /\ ElOk /\ lastChunk' = R.chunk /\ nEl' = nEl + 1 /\ UNCHANGED <<safeFit, maxDatagram, items, evs, nEv, evSt, nSt, lastNo>>
 \* event reports come after every attribute report; the statuses of the paths that select nothing first, then every selected
 \* event exactly once, oldest first, with its payload
 EvEl == /\ IsEvent("El") /\ R.k \in {"ev", "evstatus"}
         /\ cur = Len(items) + 1 /\ li = 0 /\ R.chunk >= lastChunk
         /\ IF R.k = "evstatus" /\ R.status = "ResourceExhausted"
            THEN \* stands for an event no message can carry; only as the first element of a message
-                /\ nEv < Len(evs) /\ evs[nEv + 1] > SafeFit /\ R.chunk > lastChunk /\ R.cl = 101
+                /\ nEv < Len(evs) /\ evs[nEv + 1] > safeFit /\ R.chunk > lastChunk /\ R.cl = 101
                 /\ nEv' = nEv + 1 /\ UNCHANGED <<nSt, lastNo>>
            ELSE IF R.k = "evstatus" THEN nSt < evSt /\ nEv = 0 /\ nSt' = nSt + 1 /\ UNCHANGED <<nEv, lastNo>>
            ELSE /\ nEv < Len(evs) /\ R.len = evs[nEv + 1] /\ R.no > lastNo
                 /\ nEv' = nEv + 1 /\ lastNo' = R.no /\ UNCHANGED nSt
-        /\ lastChunk' = R.chunk /\ nEl' = nEl + 1 /\ UNCHANGED <<items, cur, li, evs, evSt>>
+        /\ lastChunk' = R.chunk /\ nEl' = nEl + 1 /\ UNCHANGED <<safeFit, maxDatagram, items, cur, li, evs, evSt>>
 El == AttrEl \/ EvEl
 EndOk ==
   /\ R.error = ""
@@ -65,10 +66,10 @@ EndOk ==
   /\ Len(R.chunks) >= 1 /\ Len(R.chunks) >= lastChunk
   /\ \A c \in 1..Len(R.chunks) : /\ R.chunks[c].malformed = ""             \* well-formed on its own
                                  /\ R.chunks[c].more = (c < Len(R.chunks))  \* only the last one ends the interaction
-  /\ R.max_size <= MaxDatagram                                            \* fits the transport's maximum size
+  /\ R.max_size <= maxDatagram                                            \* fits the transport's maximum size
   /\ Len(R.chunks) <= 2 * nEl + 2                                         \* Bounded: no run of empty messages
-End == IsEvent("End") /\ EndOk /\ UNCHANGED <<items, cur, li, lastChunk, nEl, evs, nEv, evSt, nSt, lastNo>>
-Other == i <= Len(Rec) /\ Rec[i].ev \notin {"Reset", "Req", "El", "End"} /\ i' = i + 1 /\ UNCHANGED <<items, cur, li, lastChunk, nEl, evs, nEv, evSt, nSt, lastNo>>
+End == IsEvent("End") /\ EndOk /\ UNCHANGED <<safeFit, maxDatagram, items, cur, li, lastChunk, nEl, evs, nEv, evSt, nSt, lastNo>>
+Other == i <= Len(Rec) /\ Rec[i].ev \notin {"Reset", "Req", "El", "End"} /\ i' = i + 1 /\ UNCHANGED <<safeFit, maxDatagram, items, cur, li, lastChunk, nEl, evs, nEv, evSt, nSt, lastNo>>
 Next == Reset \/ Req \/ El \/ End \/ Other
 Spec == Init /\ [][Next]_vars
 TraceAccepted ==
